@@ -13,7 +13,10 @@ Inductive mk :=
 | MT (u : N) (body : list mk)     (* u{body}: code / math / italic / bold *)
 | MB (body : list mk)             (* {body}: literal braces *)
 | ME (code : text)                (* E{code} *)
-| MS (name : text).               (* S{name} *)
+| MS (name : text)                (* S{name} *)
+| ML (u : N) (label : list mk) (tail ws tgt : text)   (* L{label tail <tgt>} / U{label tail <tgt>}: tail = the plain text
+                                                         after the last marked-up region of the label, ws = blanks *)
+| MN (u : N) (name : text).       (* L{name} / U{name}: the target is the text itself *)
 
 Fixpoint show1 (m : mk) : text :=
   match m with
@@ -22,6 +25,8 @@ Fixpoint show1 (m : mk) : text :=
   | MB body => LB :: flat_map show1 body ++ [RB]
   | ME code => 69%N :: LB :: code ++ [RB]
   | MS name => 83%N :: LB :: name ++ [RB]
+  | ML u label tail ws tgt => u :: LB :: flat_map show1 label ++ tail ++ ws ++ 60%N :: tgt ++ [62%N; RB]
+  | MN u name => u :: LB :: name ++ [RB]
   end.
 Definition show (items : list mk) : text := flat_map show1 items.
 
@@ -38,6 +43,8 @@ Fixpoint shown1 (m : mk) : text :=
   | MB body => LB :: flat_map shown1 body ++ [RB]
   | ME code => match escape_char code with Some c => [c] | None => [] end
   | MS name => match assoc_text name epy_symbols with Some c => [c] | None => [] end
+  | ML _ label tail _ _ => flat_map shown1 label ++ tail        (* the label; the target is not shown *)
+  | MN _ name => name
   end.
 Definition shown (items : list mk) : text := flat_map shown1 items.
 
@@ -49,6 +56,8 @@ Definition plain_region (u : N) : bool :=
   | _ => false
   end.
 
+Definition is_ws (c : N) : bool := N.eqb c 32 || N.eqb c 9 || N.eqb c 10 || N.eqb c 13 || N.eqb c 11 || N.eqb c 12.
+
 Definition ends_upper (m : mk) : bool := match m with MC c => is_upper c | _ => false end.
 
 Definition valid_escape (code : text) : bool :=
@@ -56,6 +65,29 @@ Definition valid_escape (code : text) : bool :=
 Definition valid_symbol (name : text) : bool :=
   no_brace name && (match assoc_text name epy_symbols with Some _ => true | None => false end) &&
   (match name with [] => false | _ => true end).
+
+Definition link_region (u : N) : bool :=
+  match assoc_N u colorizing_tags with
+  | Some ELink | Some EUri => is_upper u
+  | _ => false
+  end.
+Definition link_tag (u : N) : etag :=
+  match assoc_N u colorizing_tags with Some e => etag_of e | None => TgUnknown end.
+
+Definition no_angle (t : text) : bool := forallb (fun c => negb (N.eqb c 60) && negb (N.eqb c 62)) t.
+Definition spaces (t : text) : bool := forallb (N.eqb 32) t.
+(* the plain text in front of <target>: no brace, no angle bracket, no white space at its end *)
+Definition tail_ok (t : text) : bool :=
+  no_brace t && no_angle t && match rev t with c :: _ => negb (is_ws c) | [] => true end.
+
+(* a label ends "closed" when its last item is not a plain character (those belong to `tail`) *)
+Definition ends_closed (items : list mk) : bool :=
+  match rev items with MC _ :: _ => false | _ => true end.
+
+Section WellFormed.
+(* which targets / names the regular expressions of _colorize_link accept is left to the oracle contract *)
+Variable good_target : etag -> text -> bool.
+Variable good_name : etag -> text -> bool.
 
 (* after_upper: the character written just before is a capital letter *)
 Fixpoint wf1 (after_upper : bool) (m : mk) {struct m} : bool :=
@@ -71,6 +103,12 @@ Fixpoint wf1 (after_upper : bool) (m : mk) {struct m} : bool :=
        match l with [] => true | x :: r => wf1 p x && go (ends_upper x) r end) false body
   | ME code => valid_escape code
   | MS name => valid_symbol name
+  | ML u label tail ws tgt =>
+    link_region u &&
+    (fix go (p : bool) (l : list mk) : bool :=
+       match l with [] => true | x :: r => wf1 p x && go (ends_upper x) r end) false label &&
+    ends_closed label && tail_ok tail && spaces ws && no_brace tgt && good_target (link_tag u) tgt
+  | MN u name => link_region u && no_brace name && (match name with [] => false | _ => true end) && good_name (link_tag u) name
   end.
 
 Fixpoint well_formed (after_upper : bool) (items : list mk) : bool :=
@@ -79,9 +117,12 @@ Fixpoint well_formed (after_upper : bool) (items : list mk) : bool :=
   | x :: r => wf1 after_upper x && well_formed (ends_upper x) r
   end.
 
+End WellFormed.
+
 Fixpoint mk_size (m : mk) : nat :=
   match m with
-  | MT _ body | MB body => S ((fix go (l : list mk) : nat := match l with [] => 0 | x :: r => mk_size x + go r end) body)
+  | MT _ body | MB body | ML _ body _ _ _ =>
+    S ((fix go (l : list mk) : nat := match l with [] => 0 | x :: r => mk_size x + go r end) body)
   | _ => 1
   end.
 Fixpoint mks_size (l : list mk) : nat := match l with [] => 0 | x :: r => mk_size x + mks_size r end.
